@@ -37,7 +37,7 @@ of a cells that does not exist fails in the caller (`Env.alive`, `evalNode`, `ca
 a failure into a value: known finding C02-caught-failure-untracked, `full_statement_fails_catch`
 below), `Scoped env` (static scoping: a by-name read is of a reference of the formula's own
 space, which is how Python resolves globals), and – only for the corollary about what later
-evaluations *return*, inherited from C01 – `LimitNeverCaught` (`hit = false`).
+evaluations *return*, inherited from C01 – `LimitNotCaughtInThisCall` (C01).
 
 What is **not** a Lean theorem: the structural part of the property (which spaces a structural
 edit notifies, derived members) – decided by the implementation-only oracle (live model against
@@ -142,9 +142,9 @@ definitions – the value a model that only saw the edits returns (partial:
 `LimitNeverCaught`, as in C01). -/
 theorem later_answers_depend_only_on_current_definitions_partial (env' : Env)
     (inp' : Node → Option Val) (s' : St) (n : Node) (v : Val)
-    (hg : Good env' inp' s') (h0 : s'.hit = false) (hend : (evalTop env' n s').2.hit = false)
+    (hg : Good env' inp' s') (hlim : LimitNotCaughtInThisCall env' n s')
     (hv : (evalTop env' n s').1 = .ok v) : Den env' inp' n (.ok v) :=
-  (C01.eval_value_is_denotation_partial env' inp' n s' hg h0 hend).1 v hv
+  (C01.eval_value_is_denotation_partial env' inp' n s' hg hlim).1 v hv
 
 /-! Non-vacuity: in the program of C08, `c0(7)` is alone in its call-closed set and reads only
 reference 0; changing the formula of `c2` leaves its denotation untouched. -/
@@ -366,10 +366,9 @@ which nothing stale can be held – e.g. the model to which only the edits were 
 holds the inputs and nothing else (`Good` is then immediate). -/
 theorem later_answers_equal_fresh_model_partial (env' : Env) (lt : Node → Node → Prop) (s' sF : St)
     (h : CI env' lt s') (hF : Good env' (inpOf s') sF) (n : Node) (v w : Val)
-    (h0 : s'.hit = false) (h0F : sF.hit = false)
-    (hend : (evalTop env' n s').2.hit = false) (hendF : (evalTop env' n sF).2.hit = false)
+    (hend : LimitNotCaughtInThisCall env' n s') (hendF : LimitNotCaughtInThisCall env' n sF)
     (hv : (evalTop env' n s').1 = .ok v) (hw : (evalTop env' n sF).1 = .ok w) : v = w :=
-  C01.order_independent env' (inpOf s') n s' sF h.good hF h0 h0F hend hendF v w hv hw
+  C01.order_independent env' (inpOf s') n s' sF h.good hF hend hendF v w hv hw
 
 /-- **a syntactic class in the regime** (`tableEnv`, `Proofs/ExecCertRunOps.lean`): bodies without a
 handler that returns a value (`noCatch`; contains the `try`-free bodies, `noCatch_of_noTry`), cells
@@ -444,7 +443,8 @@ theorem full_statement_fails_catch :
       have : (evalTop cEnv (1, []) {}).2.inputs = [] := by decide
       simp [inpOf, this]
     rw [hinp]
-    exact (C01.eval_value_is_denotation_partial cEnv (fun _ => none) (1, []) {} hg0 rfl (by decide)).2.2
+    exact (C01.eval_value_is_denotation_partial cEnv (fun _ => none) (1, []) {} hg0
+      (LimitNotCaughtInThisCall.of_flag rfl (by decide))).2.2
   have := (h cEnv _ 0 (.int 5) hgood).sound (1, []) (.int (-1)) rfl (by decide)
   have hspec : Den (cEnv.withRef 0 (some (.int 5)))
       (inpOf ((evalTop cEnv (1, []) {}).2.setRef cEnv 0)) (1, []) (.ok (.int 5)) := by
@@ -476,7 +476,8 @@ theorem cell_create_fails_catch :
       have : (evalTop dEnv (1, []) {}).2.inputs = [] := by decide
       simp [inpOf, this]
     rw [hinp]
-    exact (C01.eval_value_is_denotation_partial dEnv (fun _ => none) (1, []) {} hg0 rfl (by decide)).2.2
+    exact (C01.eval_value_is_denotation_partial dEnv (fun _ => none) (1, []) {} hg0
+      (LimitNotCaughtInThisCall.of_flag rfl (by decide))).2.2
   have := (h dEnv _ 0 (fun _ => .ret (.int 5)) true false hgood rfl).sound (1, []) (.int (-1)) rfl (by decide)
   have hspec : Den (dEnv.withCell 0 (fun _ => .ret (.int 5)) true false)
       (inpOf ((evalTop dEnv (1, []) {}).2.newCell dEnv 0)) (1, []) (.ok (.int 5)) := by
